@@ -216,3 +216,18 @@ Proof. vm_compute. reflexivity. Qed.
 Example C20_same_value_bound_ex :
   esame KValue 0 SIGN /\ fkey 0 = fkey SIGN /\ 0 <> SIGN /\ is_zero 0 = true.
 Proof. split; [right; vm_compute; reflexivity|]. vm_compute. repeat split. discriminate. Qed.
+
+(* sets that share their identity with the EMPTY set under the identity
+   function of the code (element sum = -23/31 mod 2^64): a duration set, the
+   value set {5.2461395442846984e-20, 1.0}, after the empty sets of both
+   kinds -- each still gets its own bounds *)
+Definition ex_history_zero : list (kind * list Z) :=
+  [(KValue, []); (KDuration, []);
+   (KDuration, [250000000; 1000000000; 8925843905383654007]);
+   (KValue, [4318661487833636599; 4607182418800017408])].
+Example C20_cache_zero_identity_ex :
+  map (fun p => real_ident (fst p) (snd p)) ex_history_zero = [0; 0; 0; 0] /\
+  map sbounds (run real_ident ex_history_zero) =
+    map (fun p => uppers (fst p) (snd p)) ex_history_zero /\
+  map (fun s => length (sbounds s)) (run real_ident ex_history_zero) = [1; 1; 4; 3]%nat.
+Proof. vm_compute. repeat split. Qed.
